@@ -48,6 +48,34 @@ type Pair struct {
 	Op     string `json:"op"`
 	Port   string `json:"port,omitempty"` // appended to the Host header (":9000")
 	Origin bool   `json:"origin,omitempty"`
+	// HostCase: letter case of the endpoint part of the virtual-hosted Host header: "" (as configured) |
+	// "upper" | "mixed". Host names are case-insensitive, pithos compares them as written: such a request is
+	// either treated as virtual-hosted (then it must equal the path-style request) or as some other domain
+	// (then it must not change state).
+	HostCase string `json:"hostCase,omitempty"`
+}
+
+// mutating: storage calls that change state.
+var mutating = map[string]bool{"CreateBucket": true, "DeleteBucket": true, "PutBucketVersioningConfiguration": true, "PutBucketWebsiteConfiguration": true,
+	"DeleteBucketWebsiteConfiguration": true, "PutBucketCORSConfiguration": true, "DeleteBucketCORSConfiguration": true, "PutBucketLifecycleConfiguration": true,
+	"DeleteBucketLifecycleConfiguration": true, "PutBucketNotificationConfiguration": true, "PutObjectTagging": true, "DeleteObjectTagging": true, "PutObject": true,
+	"CopyObject": true, "AppendObject": true, "DeleteObject": true, "DeleteObjects": true, "TransitionObjectStorageClass": true, "CreateMultipartUpload": true,
+	"UploadPart": true, "UploadPartCopy": true, "CompleteMultipartUpload": true, "AbortMultipartUpload": true}
+
+func recase(host, how string) string {
+	switch how {
+	case "upper":
+		return strings.ToUpper(host)
+	case "mixed":
+		b := []byte(host)
+		for i := range b {
+			if i%2 == 0 && b[i] >= 'a' && b[i] <= 'z' {
+				b[i] -= 'a' - 'A'
+			}
+		}
+		return string(b)
+	}
+	return host
 }
 
 // WebReq is one request to the website endpoint / a custom domain.
@@ -601,8 +629,25 @@ func run(env *ev.Env, c Case) (o ev.Outcome) {
 			continue
 		}
 		s1, c1, a1, _ := w.serve(w.api+p.Port, pathStyle, shape.method, hdr, body)
-		s2, c2, a2, _ := w.serve(bucket+"."+w.api+p.Port, vhost, shape.method, hdr, body)
+		s2, c2, a2, _ := w.serve(bucket+"."+recase(w.api, p.HostCase)+p.Port, vhost, shape.method, hdr, body)
 		o.Sub++
+		if p.HostCase != "" && recase(w.api, p.HostCase) != w.api {
+			o.Class("pair:endpoint-in-other-letter-case")
+			nontrivial = true
+			same := strings.Join(sigs(c1), "\n") == strings.Join(sigs(c2), "\n") && strings.Join(a1, "\n") == strings.Join(a2, "\n")
+			mutates := ""
+			for _, cl := range c2 {
+				if mutating[cl.Method] {
+					mutates = cl.Method
+				}
+			}
+			if !same && mutates != "" {
+				o.Failf("pair %d (%s %s key %q): Host %q (endpoint in another letter case) is neither handled like the path-style request nor refused without a state change: it reached %s.\n path-style %s%s -> status %d\n  storage:\n   %s\n virtual-hosted %s -> status %d\n  storage:\n   %s",
+					pi, p.Op, bucket, key, bucket+"."+recase(w.api, p.HostCase)+p.Port, mutates, w.api+p.Port, pathStyle, s1, strings.Join(sigs(c1), "\n   "), vhost, s2, strings.Join(sigs(c2), "\n   "))
+				return
+			}
+			continue
+		}
 		o.Class("op:" + p.Op)
 		o.Class("enc:" + p.Enc)
 		for _, cl := range keyClass(key) {
@@ -809,11 +854,6 @@ func genCase(t *rapid.T, env *ev.Env) Case {
 			} else {
 				p.Key = genKey(t, "pk")
 			}
-			// keys ending in "/" are the trigger class of KF-C33-1: keep their share at
-			// about a quarter of the object-level pairs so the search continues behind it
-			if strings.HasSuffix(p.Key, "/") && rapid.IntRange(0, 3).Draw(t, "keepSlash") > 1 {
-				p.Key = strings.TrimRight(p.Key, "/") + "x"
-			}
 			p.Enc = rapid.SampledFrom([]string{"min", "min", "all", "slash", "lower"}).Draw(t, "enc")
 		} else {
 			p.Op = rapid.SampledFrom(bucketOps).Draw(t, "bop")
@@ -821,6 +861,9 @@ func genCase(t *rapid.T, env *ev.Env) Case {
 		}
 		p.Port = rapid.SampledFrom([]string{"", "", ":9000", ":80"}).Draw(t, "port")
 		p.Origin = rapid.IntRange(0, 5).Draw(t, "origin") == 3
+		if rapid.IntRange(0, 5).Draw(t, "hostCase") == 2 {
+			p.HostCase = rapid.SampledFrom([]string{"upper", "mixed"}).Draw(t, "hostCaseKind")
+		}
 		c.Pairs = append(c.Pairs, p)
 	}
 	nw := rapid.IntRange(0, 5).Draw(t, "nweb")
